@@ -107,7 +107,7 @@ def run_tree(args):
             src_variants.append((["-c", "%s, %s" % (chans[0], chans[1]), "--only"], chans[:2], False))
         opts = option_sets(times, tier)
         n = 0
-        for cmd in ("cp", "mv", "ln", "lnsym"):
+        for cmd in ("cp", "mv", "ln", "lnsym", "mvx"):
             for (oargv, kw) in opts:
                 for (sargv, chlist, recursive) in (src_variants if (oargv == [] or n % 7 == 0) else src_variants[:1]):
                     n += 1
@@ -133,11 +133,28 @@ def run_tree(args):
                         core.rm(src)
                         core.rm(dest)
                         continue  # listing failures belong to C14
-                    argv = ["cp" if cmd == "cp" else "mv" if cmd == "mv" else "ln"] + ([] if cmd != "lnsym" else ["--symbolic"]) + \
+                    argv = ["cp" if cmd == "cp" else "mv" if cmd in ("mv", "mvx") else "ln"] + ([] if cmd != "lnsym" else ["--symbolic"]) + \
                         [src, dest] + sargv + oargv
+                    real_rename = os.rename
+                    if cmd == "mvx":
+                        if n % 5:
+                            core.rm(src)
+                            core.rm(dest)
+                            continue
+
+                        def xdev_rename(a, b, _d=dest, _r=real_rename):
+                            # source and destination on different file systems
+                            if os.path.abspath(str(b)).startswith(_d) != os.path.abspath(str(a)).startswith(_d):
+                                raise OSError(18, "Invalid cross-device link")
+                            return _r(a, b)
+
+                        os.rename = xdev_rename
                     q = {"cmd": cmd, "argv": argv[3:] if cmd != "lnsym" else argv[4:]}
                     try:
-                        drf_command.main(argv)
+                        try:
+                            drf_command.main(argv)
+                        finally:
+                            os.rename = real_rename
                     except SystemExit as e:
                         raise core.HarnessError("argparse rejected %r: %r" % (argv, e))
                     except Exception as e:  # noqa: BLE001
@@ -158,7 +175,7 @@ def run_tree(args):
                         for drel, srel in expected.items():
                             b = before[srel]
                             a = after_dest[drel]
-                            if cmd in ("cp", "mv"):
+                            if cmd in ("cp", "mv", "mvx"):
                                 if a[0] != "file" or a[1] != b[1]:
                                     bad({"class": "content_differs", "cmd": cmd}, "%s -> %s" % (srel, drel), **q)
                                     break
@@ -170,7 +187,7 @@ def run_tree(args):
                                 if a[0] != "link" or os.path.realpath(os.path.join(dest, drel)) != os.path.realpath(os.path.join(real_src, srel)):
                                     bad({"class": "not_a_symlink_to_source", "cmd": cmd}, "%s -> %s %r" % (srel, drel, a), **q)
                                     break
-                    if cmd == "mv":
+                    if cmd in ("mv", "mvx"):
                         want_src = {k: v for k, v in before.items() if k not in set(expected.values())}
                         if {k: v[:2] for k, v in after_src.items()} != {k: v[:2] for k, v in want_src.items()}:
                             bad({"class": "mv_source_state", "cmd": cmd}, "source after mv: unexpected %s, missing %s" % (
